@@ -61,9 +61,13 @@ def generate(rng, index, tier):
         # one thread stays inside a call while another thread emits a very large number of records
         n = [66000, 140000][(index // 4001) % 2]
         s_, e_ = worlds.domains.draw(rng, 'BSC_getpid')
-        x = {'tid': 100, 'ops': [{'k': 'sys', 'name': 'BSC_getpid', 's': s_, 'e': e_, 'in': []}]}
+        # (the call holds a nested call that starts only after the other thread's burst: a window must not age by the
+        # records of other threads - seeded change C05-r12-2)
+        s2, e2 = worlds.domains.draw(rng, 'BSC_getppid')
+        inner = [{'k': 'sys', 'name': 'BSC_getppid', 's': s2, 'e': e2, 'in': []}]
+        x = {'tid': 100, 'ops': [{'k': 'sys', 'name': 'BSC_getpid', 's': s_, 'e': e_, 'in': inner}]}
         y = {'tid': 117, 'ops': [dict(worlds.op_single(rng, 'MACH_MKRUNNABLE')) for _ in range(n)]}
-        return {'threads': [x, y], 'schedules': [[0] + [1] * n + [0], [1] * 5 + [0] + [1] * (n - 5)], 'faults': [], 'huge': n}
+        return {'threads': [x, y], 'schedules': [[0] + [1] * n + [0] * 3, [1] * 5 + [0] * 4 + [1] * (n - 5)], 'faults': [], 'huge': n}
     if index % 499 == 3:
         # many threads: every one announces a thread/process (data record, then its name string); with a round-robin merge
         # all data records are pending at once before the first string arrives
